@@ -40,6 +40,8 @@ def main(argv):
         spec.setdefault('seed', seed)
         spec.setdefault('tier', tier)
         spec.setdefault('mode', 'run')
+        # wall-clock watchdog per shard (firing = inconclusive): generous, so that a loaded machine does not turn a run inconclusive
+        spec['timeout'] = max(spec.get('timeout', 0), 3600 if tier == 'quick' else 6 * 3600)
         if tier == 'quick' and os.environ.get('VERIF_REACH', '1') != '0':
             spec.setdefault('reach', True)
     res = core.merge(core.run_shards(prop, specs))
